@@ -5,7 +5,7 @@ use anyhow::{anyhow, bail, Context, Result};
 use futures::{future::join_all, stream::FuturesUnordered, SinkExt, StreamExt};
 use log::{error, info};
 use quinn::{Connecting, Connection, Endpoint, IdleTimeout, VarInt};
-use selium_protocol::error_codes::INVALID_TOPIC_NAME;
+use selium_protocol::error_codes::{INVALID_TOPIC_NAME, TOPIC_PATTERN_MISMATCH};
 use selium_protocol::{error_codes, BiStream, ErrorPayload, Frame, TopicName};
 use selium_std::errors::SeliumError;
 use std::net::SocketAddr;
@@ -172,7 +172,7 @@ async fn handle_stream(
             use selium_protocol::error_codes::CLOUD_AUTH_FAILED;
 
             match do_cloud_auth(&_connection, topic, &topics).await {
-                Ok(_) => stream.send(Frame::Ok).await?,
+                Ok(_) => (),
                 Err(e) => {
                     debug!("Cloud authentication error: {e:?}");
 
@@ -198,7 +198,6 @@ async fn handle_stream(
                 stream.send(Frame::Error(payload)).await?;
                 return Ok(());
             }
-            stream.send(Frame::Ok).await?;
         }
 
         let mut ts = topics.lock().await;
@@ -228,6 +227,30 @@ async fn handle_stream(
         // kept locked while a busy topic makes us wait
         let mut tx = ts.get(topic).unwrap().clone();
         drop(ts);
+
+        // A topic serves a single messaging pattern. Only tell the peer that it has been
+        // accepted once we know its role can actually be served here.
+        let pattern_matches = matches!(
+            (&tx, &frame),
+            (
+                Sender::Pubsub(_),
+                Frame::RegisterPublisher(_) | Frame::RegisterSubscriber(_)
+            ) | (
+                Sender::ReqRep(_),
+                Frame::RegisterReplier(_) | Frame::RegisterRequestor(_)
+            )
+        );
+
+        if !pattern_matches {
+            let payload = ErrorPayload {
+                code: TOPIC_PATTERN_MISMATCH,
+                message: "Topic is in use by a different messaging pattern".into(),
+            };
+            stream.send(Frame::Error(payload)).await?;
+            return Ok(());
+        }
+
+        stream.send(Frame::Ok).await?;
 
         match frame {
             Frame::RegisterPublisher(_) => {
